@@ -6,7 +6,10 @@
 
     [scenario_ok]: a script of deliveries / executions / direct harness actions is replayed on
     the model; at every observation point the projection of the model state must equal what
-    the harness dumped from the real NodeHost (GetNodeHostInfo / HasNodeInfo).
+    the harness dumped from the real NodeHost (GetNodeHostInfo / HasNodeInfo).  Besides the atomic [SExec] there is the
+    pair [SBegin] .. [SEnd] (HandleMasterRequests running on its own goroutine: deliveries in between are made while the batch
+    taken at [SBegin] is being worked on and belong to the NEXT execution) and [SRestart] (the NodeHost process restarted on
+    its disk: nothing runs, the queue is gone, records / logs / "removed" marks stay).
     For that the abstract NodeHost of Agent.v is instantiated with [ref_nh], a small
     *reference semantics of the dragonboat calls* for the scenario space the generator stays
     in: ONE NodeHost, every Raft group has its quorum on that NodeHost or has none.  [ref_nh]
@@ -240,8 +243,13 @@ Definition host_obs_eqb (a b : host_obs) : bool :=
 Inductive step :=
 | SRecv (reqs : list request)           (* a report whose answer carried this batch *)
 | SExec (crashed : bool)                (* HandleMasterRequests; crashed: the process died in it *)
+| SBegin                                (* HandleMasterRequests started on the request worker's goroutine: the queue is taken *)
+| SEnd (crashed : bool)                 (* ... and has returned: the batch taken at SBegin was executed.  Deliveries (SRecv) in
+                                           between are made by the reporter goroutine while the batch is being worked on *)
 | SStart (a : start_args)               (* harness: StartReplica directly *)
 | SStop (s r : N)                       (* harness: StopReplica directly *)
+| SRestart                              (* the NodeHost process is stopped and started again on the same disk: every replica is
+                                           stopped, the queue of received requests (process memory) is gone *)
 | SObs (o : host_obs).                  (* DUMP *)
 
 Definition any_panicked (l : list (N * list event * outcome)) : bool :=
@@ -252,37 +260,60 @@ Definition exec_host (a : agent) (h : host) : agent * host * bool :=
   let '(a', g', res) := execute ref_nh a (host_get h) in
   (a', fold_left (fun h' s => host_set h' s (g' s)) (shard_ids b) h, any_panicked res).
 
-Fixpoint run_steps (a : agent) (h : host) (steps : list step) : bool :=
+(* what survives a restart of the NodeHost process: bootstrap records, logs, "removed" marks -- not the running replicas *)
+Definition restart_host (h : host) : host :=
+  map (fun x => (fst x, mkSh None false (sh_reps (snd x)) (sh_tomb (snd x)))) h.
+
+(* [run]: the batch a background HandleMasterRequests is working on (taken at SBegin, not yet reflected in [h]) *)
+Fixpoint run_steps (a : agent) (run : option (list request)) (h : host) (steps : list step) : bool :=
   match steps with
   | [] => true
-  | SRecv reqs :: t => run_steps (receive a reqs) h t
+  | SRecv reqs :: t => run_steps (receive a reqs) run h t
   | SExec crashed :: t =>
     let '(a', h', p) := exec_host a h in
-    Bool.eqb p crashed && (if crashed then true else run_steps a' h' t)
+    Bool.eqb p crashed && (if crashed then true else run_steps a' run h' t)
+  | SBegin :: t =>
+    match run with
+    | Some _ => false
+    | None => let '(b, a') := take a in run_steps a' (Some b) h t
+    end
+  | SEnd crashed :: t =>
+    match run with
+    | None => false
+    | Some b =>
+      let '(_, h', p) := exec_host (mkAgent b) h in
+      Bool.eqb p crashed && (if crashed then true else run_steps a None h' t)
+    end
   | SStart x :: t =>
     let s := sa_shard x in
-    run_steps a (host_set h s (fst (ref_start (host_get h s) x))) t
-  | SStop s r :: t => run_steps a (host_set h s (fst (ref_stop (host_get h s) s r))) t
-  | SObs o :: t => host_obs_eqb (model_obs h (map fst (ho_info o))) o && run_steps a h t
+    run_steps a run (host_set h s (fst (ref_start (host_get h s) x))) t
+  | SStop s r :: t => run_steps a run (host_set h s (fst (ref_stop (host_get h s) s r))) t
+  | SRestart :: t => run_steps (mkAgent []) None (restart_host h) t
+  | SObs o :: t => host_obs_eqb (model_obs h (map fst (ho_info o))) o && run_steps a run h t
   end.
 
-Definition scenario_ok (steps : list step) : bool := run_steps (mkAgent []) [] steps.
+Definition scenario_ok (steps : list step) : bool := run_steps (mkAgent []) None [] steps.
 
 (* for diagnostics: the model's observations at every SObs *)
-Fixpoint dbg_steps (a : agent) (h : host) (steps : list step) : list host_obs :=
+Fixpoint dbg_steps (a : agent) (run : option (list request)) (h : host) (steps : list step) : list host_obs :=
   match steps with
   | [] => []
-  | SRecv reqs :: t => dbg_steps (receive a reqs) h t
+  | SRecv reqs :: t => dbg_steps (receive a reqs) run h t
   | SExec crashed :: t =>
     let '(a', h', p) := exec_host a h in
-    if p then [mkHO [] [] [(999999, if crashed then 1 else 0)]] else dbg_steps a' h' t
+    if p then [mkHO [] [] [(999999, if crashed then 1 else 0)]] else dbg_steps a' run h' t
+  | SBegin :: t => let '(b, a') := take a in dbg_steps a' (Some b) h t
+  | SEnd crashed :: t =>
+    let '(_, h', p) := exec_host (mkAgent (match run with Some b => b | None => [] end)) h in
+    if p then [mkHO [] [] [(999999, if crashed then 1 else 0)]] else dbg_steps a None h' t
   | SStart x :: t =>
     let s := sa_shard x in
-    dbg_steps a (host_set h s (fst (ref_start (host_get h s) x))) t
-  | SStop s r :: t => dbg_steps a (host_set h s (fst (ref_stop (host_get h s) s r))) t
-  | SObs o :: t => model_obs h (map fst (ho_info o)) :: dbg_steps a h t
+    dbg_steps a run (host_set h s (fst (ref_start (host_get h s) x))) t
+  | SStop s r :: t => dbg_steps a run (host_set h s (fst (ref_stop (host_get h s) s r))) t
+  | SRestart :: t => dbg_steps (mkAgent []) None (restart_host h) t
+  | SObs o :: t => model_obs h (map fst (ho_info o)) :: dbg_steps a run h t
   end.
-Definition scenario_dbg (steps : list step) : list host_obs := dbg_steps (mkAgent []) [] steps.
+Definition scenario_dbg (steps : list step) : list host_obs := dbg_steps (mkAgent []) None [] steps.
 
 (* per shard calls of one execution on the reference NodeHost (used by non-vacuity examples) *)
 Definition exec_calls (h : host) (b : list request) : list (N * list event * outcome) :=
